@@ -1717,7 +1717,7 @@ func (x *Exec) sliceOp(st *State, fr *Frame, ins *ssa.Slice) {
 	if lo == "" || lo == "0" {
 		// prefix: same array, shorter length
 		x.boundsCheck(st, fr, hi, app("+", seqLen(tv.T), "1"), ins.Pos())
-		fr.env[ins] = TV{T: app("mkseq", seqArr(tv.T), hi), Ty: ins.Type()}
+		fr.env[ins] = TV{T: app("mkseq", seqArr(tv.T), hi), Ty: ins.Type(), Shrunk: true}
 		return
 	}
 	// s[lo:hi] of a non-byte slice read as a value: a sequence of hi-lo elements, element j being s[lo+j].
@@ -1732,7 +1732,7 @@ func (x *Exec) sliceOp(st *State, fr *Frame, ins *ssa.Slice) {
 		es := x.enc.Sort(st2.Elem())
 		sub := x.enc.FreshConst("subseq", fmt.Sprintf("(Array Int %s)", es))
 		st.Assume(fmt.Sprintf("(forall ((j Int)) (! (= (select %s j) (select %s (+ j %s))) :pattern ((select %s j))))", sub, seqArr(tv.T), lo, sub))
-		fr.env[ins] = TV{T: app("mkseq", sub, app("-", hi, lo)), Ty: ins.Type()}
+		fr.env[ins] = TV{T: app("mkseq", sub, app("-", hi, lo)), Ty: ins.Type(), Shrunk: ins.High != nil}
 		return
 	}
 	x.fail("general slicing of non-byte slices")
